@@ -55,11 +55,21 @@ class DtypeStrings(Contract):
                 z = Fxp(None, not s, max(n - 1, 1), f - 1); z.resize(dtype=text)      # a neighbouring format: the re-scaling of the value is C10's business
                 chk('parse_resize', (z.signed, z.n_word, z.n_frac) == (s, n, f), [f, text, z.signed, z.n_word, z.n_frac])
             chk('get_sizes', _sizes(utils, want_fxp) == (s, n, f), [f, want_fxp, _sizes(utils, want_fxp)])
+            if n <= 40 and abs(f) <= 40:
+                # the fxp_sum(dtype=) route: the string alone determines the result format, whatever the sign of the sum
+                for data in ([0.0, 1.0], [-1.0, 0.5], [-3.0, -2.0]):
+                    r = P.pkg.fxp_sum(Fxp(data, True, 16, 4), dtype=want_fxp)
+                    chk('fxp_sum_dtype', (r.signed, r.n_word, r.n_frac) == (s, n, f) and r.dtype == want_fxp, [f, want_fxp, data, r.dtype])
             if n <= 52:
                 ctext = spec_fxp(s, n, f, True)
                 yc = Fxp(None, dtype=ctext)
                 chk('parse_complex', (yc.signed, yc.n_word, yc.n_frac) == (s, n, f) and yc.vdtype == complex, [f, ctext])
                 chk('render_complex', Fxp(1 + 1j, s, n, f).dtype == ctext, [f, ctext])
+                for ref in (Fxp(None, not s, 7, 1), Fxp(0.5, s, max(n, 2), 0)):       # like= a REAL reference + a complex dtype string
+                    yl = Fxp(None, like=ref, dtype=ctext)
+                    chk('parse_like_complex', (yl.signed, yl.n_word, yl.n_frac) == (s, n, f) and yl.dtype == ctext and yl.vdtype == complex, [f, ctext, yl.dtype])
+                yl = Fxp(None, like=Fxp(1 + 1j, not s, 9, 2), dtype=want_fxp)                # like= a COMPLEX reference + a real dtype string: sizes follow the string
+                chk('parse_like_real', (yl.signed, yl.n_word, yl.n_frac) == (s, n, f), [f, want_fxp, yl.dtype])
                 zc = Fxp(None, s, n, f); zc.resize(dtype=ctext)          # a real object resized with a complex dtype string
                 chk('parse_resize_complex', zc.dtype == ctext and zc.get_dtype('fxp') == ctext and zc.vdtype == complex, [f, ctext, zc.dtype])
                 zr = Fxp(1 + 1j, s, n, f); zr.resize(dtype=want_fxp)
@@ -75,7 +85,7 @@ class DtypeStrings(Contract):
         if obs['exc']:
             return {}
         names = ['render_default', 'render_fxp', 'render_Q', 'render_none', 'parse_ctor', 'parse_resize', 'get_sizes',
-                 'parse_complex', 'parse_resize_complex', 'parse_resize_real', 'render_complex', 'get_sizes_complex', 'parse_Q']
+                 'parse_complex', 'parse_like_complex', 'parse_like_real', 'fxp_sum_dtype', 'parse_resize_complex', 'parse_resize_real', 'render_complex', 'get_sizes_complex', 'parse_Q']
         failed = {b[0] for b in obs['bad']}
         out = {k: (k not in failed) for k in names}
         out['nonvacuous'] = obs['cases'] > 50
